@@ -75,4 +75,10 @@ def expandS (H : List Nat → List Nat) (eta : Int) (k l : Nat) (rho : List Nat)
     | none => none
     | some s2 => some (s1, s2)
 
+
+/-- Algorithm 34 `ExpandMask(ρ, μ)`: `c ← 1 + bitlen(γ1 − 1)`; for `r = 0 .. ℓ−1`: `ρ' ← ρ ‖ IntegerToBytes(μ + r, 2)`; `v ← H(ρ', 32c)`;
+    `y[r] ← BitUnpack(v, γ1 − 1, γ1)`.  `H x n` is the first `n` bytes of SHAKE256 on `x`. -/
+def expandMask (H : List Nat → Nat → List Nat) (c : Nat) (gamma1 : Int) (l : Nat) (rho : List Nat) (mu : Nat) : List (List Int) :=
+  (List.range l).map (fun r => bitUnpack c gamma1 (H (rho ++ [(mu + r) % 256, (mu + r) / 256 % 256]) (32 * c)))
+
 end Fips204.Spec
